@@ -147,10 +147,12 @@ def generated():
                 for d in ('T3', 'M2', 'S'):
                     if len({a, b, c, d}) == 4:
                         seqs.append([a, b, c, d])
-    for seq in seqs:
+    # onprev: the ON clause of a table / sub-select names the FIRST item of the join (always a table or a sub-select), or the
+    # item written directly before it -- which may be a model: `t1 join model m join t3 on t3.b = m.a`
+    for seq, onprev in [(s_, False) for s_ in seqs] + [(s_, True) for s_ in seqs if len(s_) > 2 and any(x.startswith('M') for x in s_[1:-1])]:
         frm = '%s as %s' % (items[seq[0]], alias[seq[0]])
         for i, it in enumerate(seq[1:], 1):
-            prev = seq[0]
+            prev = seq[i - 1] if onprev else seq[0]
             on = ''
             if not it.startswith('M'):
                 on = ' on %s.%s = %s.%s' % (alias[it], col[it], alias[prev], col[prev])
